@@ -9,8 +9,8 @@ PLANS = {
                 quick=[("rand", 300, ""), ("burst", 24, "ks=2+3+17+240+2049"), ("withops", 60, ""), ("moves", 40, "")],
                 thorough=[("rand", 6000, ""), ("rand", 1500, "maxops=40"), ("burst", 200, "ks=2+3+17+240+2049+5000"), ("withops", 1500, ""), ("moves", 800, ""), ("overflow", 1, "extra=4000")]),
     "C02": dict(engine=INO, mc=["MC_Events"],
-                quick=[("rand", 300, ""), ("lag", 120, ""), ("wsrand", 100, ""), ("withops", 40, "")],
-                thorough=[("rand", 5000, ""), ("lag", 2000, ""), ("wsrand", 2000, ""), ("withops", 800, "")]),
+                quick=[("rand", 300, ""), ("lag", 120, ""), ("wsrand", 100, ""), ("withops", 40, ""), ("repoint", 60, ""), ("endwatch", 80, "")],
+                thorough=[("rand", 5000, ""), ("lag", 2000, ""), ("wsrand", 2000, ""), ("withops", 800, ""), ("repoint", 800, ""), ("endwatch", 1500, "")]),
     "C03": dict(engine=INO, mc=["MC_Events"],
                 quick=[("rand", 300, ""), ("burst", 20, "ks=2+3+17+240+700"), ("paced", 40, ""), ("absorb", 24, ""), ("moves", 60, "")],
                 thorough=[("rand", 5000, ""), ("burst", 200, "ks=2+3+17+240+2049+5000"), ("paced", 600, ""), ("absorb", 200, ""), ("moves", 1500, "")]),
@@ -18,20 +18,20 @@ PLANS = {
                 quick=[("wsexh", 196, "k=2"), ("wsexh", 900, "k=3"), ("wsrand", 200, ""), ("repoint", 60, "")],
                 thorough=[("wsexh", 196, "k=2"), ("wsexh", 2744, "k=3"), ("wsexh", 38416, "k=4"), ("wsrand", 6000, ""), ("repoint", 600, "")]),
     "C05": dict(engine=INO, mc=["MC_Sched"],
-                quick=[("lag", 300, ""), ("close", 100, ""), ("stall", 40, "")],
-                thorough=[("lag", 5000, ""), ("close", 2000, ""), ("stall", 600, ""), ("overflow", 1, "extra=6")]),
+                quick=[("lag", 300, ""), ("close", 100, ""), ("stall", 40, ""), ("ovfstall", 2, "")],
+                thorough=[("lag", 5000, ""), ("close", 2000, ""), ("stall", 600, ""), ("ovfstall", 12, "")]),
     "C06": dict(engine=INO, mc=["MC_Sched"],
-                quick=[("close", 300, ""), ("lag", 100, "")],
-                thorough=[("close", 5000, ""), ("lag", 1500, "")]),
+                quick=[("close", 300, ""), ("lag", 100, ""), ("ovfstall", 2, "")],
+                thorough=[("close", 5000, ""), ("lag", 1500, ""), ("ovfstall", 12, "")]),
     "C08": dict(engine=INO, mc=["MC_Events"],
                 quick=[("spell", 240, ""), ("burst", 24, "ks=17+240+700"), ("rand", 150, "")],
                 thorough=[("spell", 4000, ""), ("burst", 300, "ks=17+240+2049"), ("rand", 3000, "")]),
     "C09": dict(engine=INO, mc=["MC_WatchSet", "MC_Events"],
-                quick=[("lag", 200, ""), ("endwatch", 200, ""), ("rand", 150, ""), ("wsrand", 100, "")],
-                thorough=[("lag", 4000, ""), ("endwatch", 4000, ""), ("rand", 3000, ""), ("wsrand", 2000, "")]),
+                quick=[("lag", 200, ""), ("endwatch", 200, ""), ("rand", 150, ""), ("wsrand", 100, ""), ("repoint", 80, "")],
+                thorough=[("lag", 4000, ""), ("endwatch", 4000, ""), ("rand", 3000, ""), ("wsrand", 2000, ""), ("repoint", 1000, "")]),
     "C10": dict(engine=INO, mc=["MC_Sched"],
-                quick=[("lag", 200, ""), ("rand", 100, ""), ("overflow", 1, "extra=6")],
-                thorough=[("lag", 5000, ""), ("rand", 3000, ""), ("overflow", 3, "extra=1+6+4000")]),
+                quick=[("lag", 200, ""), ("rand", 100, ""), ("overflow", 1, "extra=6"), ("ovflate", 2, ""), ("ovfstall", 1, "")],
+                thorough=[("lag", 5000, ""), ("rand", 3000, ""), ("overflow", 3, "extra=1+6+4000"), ("ovflate", 12, ""), ("ovfstall", 6, "")]),
     "C11": dict(engine=INO, mc=["MC_Events"],
                 quick=[("moves", 300, "")],
                 thorough=[("moves", 8000, ""), ("moves", 1000, "depth=80")]),
@@ -39,7 +39,7 @@ PLANS = {
                 quick=[("wsexh", 700, "k=3"), ("cycle", 6, "n=150"), ("wsrand", 150, ""), ("repoint", 60, ""), ("endwatch", 80, "")],
                 thorough=[("wsexh", 2744, "k=3"), ("wsexh", 12000, "k=4"), ("cycle", 50, "n=1000"), ("wsrand", 5000, ""), ("repoint", 600, ""), ("endwatch", 2000, "")]),
     "C13": dict(engine=INO, mc=["MC_Sched"],
-                quick=[("close", 200, ""), ("newclose", 3, "n=300"), ("lag", 60, "")],
+                quick=[("close", 200, ""), ("newclose", 3, "n=300"), ("lag", 60, ""), ("ovfstall", 1, "")],
                 thorough=[("close", 5000, ""), ("newclose", 10, "n=1000"), ("lag", 1500, "")]),
     "C14": dict(engine=INO, mc=["MC_Multi"],
                 quick=[("multi", 100, ""), ("absorb", 40, "")],
@@ -48,6 +48,7 @@ PLANS = {
 
 PLANS["C15"] = dict(engine="ops")
 PLANS["C16"] = dict(engine="ops")
+PLANS["C20"] = dict(engine="diff")
 
 TEXT = {
     "C01": "No lost events", "C02": "No phantom events", "C03": "Order", "C04": "Watch-set semantics",
